@@ -5,6 +5,8 @@ DeclSmall == {D0, [D0 EXCEPT !["p"] = "urn:u1"], [D0 EXCEPT !["p"] = "urn:u2", !
 DeclFull == DeclSmall \cup {[D0 EXCEPT !["p"] = "urn:u2"], [D0 EXCEPT !["q"] = "urn:u2"], [D0 EXCEPT ![""] = "urn:u1", !["p"] = "urn:u1"]}
 AttrSmall == {{}, {<<"", "x">>, <<"q", "x">>}, {<<"p", "y">>, <<"q", "x">>}}
 AttrFull == AttrSmall \cup {{<<"p", "y">>}, {<<"", "x">>}, {<<"", "x">>, <<"q", "x">>, <<"p", "a">>}}
+DeclAlt == {D0, [D0 EXCEPT !["p"] = "urn:u2"], [D0 EXCEPT !["q"] = "urn:u2", !["p"] = "urn:u1"], [D0 EXCEPT ![""] = "urn:u1", !["p"] = "urn:u1"]}
+AttrAlt == {{}, {<<"p", "y">>}, {<<"", "x">>, <<"q", "x">>, <<"p", "a">>}}
 \* generator: one behaviour per document, with the standard's canonical form and the form under relic's observed deviations
 Export == phase = "done" => PrintT("BEH " \o ToJson([doc |-> doc, canon |-> Canon(doc)]))
 =============================================================================
